@@ -562,6 +562,10 @@ macro_rules | `(tactic| foot) => `(tactic|
     | split
     | dsimp only))
 
+theorem foot_heapUpd (a : Addr) (c : Cell) : Foot (heapUpd a c) := by unfold heapUpd; foot
+macro_rules | `(tactic| foot_prim) => `(tactic| exact foot_heapUpd _ _)
+theorem foot_boxSet (a : Addr) (v : V) : Foot (boxSet a v) := by unfold boxSet; foot
+macro_rules | `(tactic| foot_prim) => `(tactic| exact foot_boxSet _ _)
 theorem foot_arrElems (a : Addr) (o l : Nat) : Foot (arrElems a o l) := by unfold arrElems; foot
 macro_rules | `(tactic| foot_prim) => `(tactic| exact foot_arrElems _ _ _)
 theorem foot_mapEntries (a : Addr) : Foot (mapEntries a) := by unfold mapEntries; foot
